@@ -214,7 +214,8 @@ def run(tier, t0):
                 prev = fs_.get('(discr prev_func)')
                 cmp_ = {k: v for k, v in fs_.items() if 'public' in k and 'address' in k and not k.startswith('(discr')}
                 if prev == 1:
-                    if cmp_ != {'(Le public.address prev_func.1.address)': False}:
+                    # `prev_func.1.address` or, with the tuple destructured in the pattern, `prev_func.address`
+                    if len(cmp_) != 1 or not all(re.match(r'^\(Le public\.address \(?\*?\s*prev_func\)?(\.1)?\.address\)$', k) and v is False for k, v in cmp_.items()):
                         res.violation('C11.6', 'C11.6|cutoff', f, t.get('line'), 'with a previous FUNC the PUBLIC is used under %s; documented: only when not (public.address <= prev_func.address)' % (cmp_ or 'no comparison'))
                 elif prev is None:
                     res.violation('C11.6', 'C11.6|no-prev-test', f, t.get('line'), 'the PUBLIC is used on a path that never looked for a previous FUNC: %s' % sorted(fs_)[:3])
